@@ -121,7 +121,7 @@ def yaml_decl(c):
             s += " = " + p["default"]
         ps.append(s)
     r = "T" if c["result"] == "T" else K.RESULTS[c["result"]]["yaml"]
-    d = {"decl": "%s %s(%s)" % (r, c["name"], ", ".join(ps))}
+    d = {"decl": "%s %s(%s)%s" % (r, c["name"], ", ".join(ps), "" if c["result"] == "T" else K.RESULTS[c["result"]].get("attrs", ""))}
     if c.get("template"):
         d["decl"] = "template<typename T> " + d["decl"]
         d["cxx_template"] = [{"instantiation": "<%s>" % t} for t in c["template"]]
